@@ -21,7 +21,8 @@ THEOREMS_1 = ["C02_ext_ref_accept", "C02_ext_ref_reject", "C02_model_ref_accept"
               "C02_refs_no_index_error", "C02_keytype_predicates", "C02_ref_example_accepted", "C02_ref_example_126",
               "C02_aasd130", "C02_string_types", "C02_version_type", "C02_revision_type", "C02_lang_string_texts",
               "C02_string_errors", "C02_id_short", "C02_id_short_errors", "C02_string_example", "C02_int_ranges"]
-THEOREMS_2 = ["C02_list_ctor", "C02_list_accept_wf", "C02_list_reject_unchanged", "C02_list_history", "C02_list_example"]
+THEOREMS_2 = ["C02_list_ctor", "C02_list_accept_wf", "C02_list_reject_unchanged", "C02_list_history", "C02_list_example",
+              "C02_sem_contained_example"]
 THEOREMS_3 = ["C02_adm_ctor", "C02_adm_accept_wf", "C02_adm_reject_unchanged", "C02_adm_history", "C02_adm_example",
               "C02_bee_ctor", "C02_bee_accept_wf", "C02_bee_reject_unchanged", "C02_bee_history", "C02_bee_example",
               "C02_category_accept_wf", "C02_category_reject", "C02_category_text_refuted", "C02_category_text_partial",
@@ -461,6 +462,20 @@ def frag_strs(chk, info):
         code2 = enc_exc(call(lambda: model.Property(s, model.datatypes.Int)))
         p = model.Property("keep", model.datatypes.Int)
         code3 = enc_exc(call(lambda: setattr(p, "id_short", s)))
+        # ... and on an element that is already contained in a submodel / a collection
+        for holder, nss in ((model.Submodel("urn:h"), "submodel_element"), (model.SubmodelElementCollection("h"), "value")):
+            pc = model.Property("keep", model.datatypes.Int)
+            getattr(holder, nss).add(pc)
+            code4 = enc_exc(call(lambda: setattr(pc, "id_short", s)))
+            if s and code4 != code:
+                chk.fail("C02:idshort:contained-setter-disagrees", f"id_short {s[:20]!r} on a contained element: "
+                         f"{exc_name(code4)}, free-standing: {exc_name(code)}", {"kind": "idshort", "codes": [ord(c) for c in s]})
+            elif code4 != 0 and (pc.id_short != "keep" or pc.parent is not holder):
+                chk.fail("C02:idshort:contained-rejected-changed", f"rejected id_short {s[:20]!r} on a contained element changed it",
+                         {"kind": "idshort", "codes": [ord(c) for c in s]})
+            elif code4 == 0 and (pc.id_short != s or holder.get_referable(s) is not pc):
+                chk.fail("C02:idshort:contained-accepted-not-stored", f"accepted id_short {s[:20]!r} on a contained element not stored",
+                         {"kind": "idshort", "codes": [ord(c) for c in s]})
         ok = (1 <= len(s) <= 128 and all(c in "abcdefghijklmnopqrstuvwxyzABCDEFGHIJKLMNOPQRSTUVWXYZ0123456789_" for c in s)
               and s[0] in "abcdefghijklmnopqrstuvwxyzABCDEFGHIJKLMNOPQRSTUVWXYZ")
         chk.seen(("idshort", s), nontrivial=True)
@@ -501,6 +516,10 @@ def frag_str_attrs(chk, info):
     dtI = model.datatypes.Int
     gref = model.ExternalReference((model.Key(model.KeyTypes.GLOBAL_REFERENCE, "x"),))
     mref = model.ModelReference((model.Key(model.KeyTypes.SUBMODEL, "x"),), model.Submodel)
+    def contained(obj, set_name):
+        holder = model.Submodel("urn:holder")
+        getattr(holder, set_name).add(obj)
+        return obj
     # (label, spec kind, factory(valid value) -> object, attribute, optional?)
     A = [
         ("AssetInformation.asset_type", "check_identifier", lambda v: model.AssetInformation(global_asset_id="g", asset_type=v), "asset_type", True),
@@ -519,6 +538,11 @@ def frag_str_attrs(chk, info):
         ("BasicEventElement.message_topic", "check_message_topic_type", lambda v: model.BasicEventElement("e", mref, model.Direction.OUTPUT, model.StateOfEvent.ON, message_topic=v), "message_topic", True),
         ("Extension.name", "check_name_type", lambda v: model.Extension(v), "name", False),
         ("Qualifier.type", "check_qualifier_type", lambda v: model.Qualifier(v, dtI), "type", False),
+        # the same setters on objects that are already contained in a namespace (the setters branch on self.parent)
+        ("Extension.name(contained)", "check_name_type", lambda v: contained(model.Extension(v), "extension"), "name", False),
+        ("Qualifier.type(contained)", "check_qualifier_type", lambda v: contained(model.Qualifier(v, dtI), "qualifier"), "type", False),
+        ("File.value(contained)", "check_path_type", lambda v: contained(model.File("f", "a/b", value=v), "submodel_element"), "value", True),
+        ("Submodel.category(contained SMC)", "check_name_type", lambda v: contained(model.SubmodelElementCollection("c", category=v), "submodel_element"), "category", True),
         ("Property.category(File)", "check_name_type", lambda v: model.File("f", "a/b", category=v), "category", True),
         ("Submodel.category", "check_name_type", lambda v: model.Submodel("i", category=v), "category", True),
         ("AdministrativeInformation.version", "check_version_type", lambda v: model.AdministrativeInformation(version=v), "version", True),
@@ -540,7 +564,10 @@ def frag_str_attrs(chk, info):
     rng = chk.rng
     for lbl, kind, mk, attr, optional in A:
         valid = "1" if "version" in kind or "revision" in kind else "a"
-        for s in boundary_strings(kind, rng, 0)[:: (3 if chk.tier == "quick" else 1)] + [valid]:
+        if "(contained)" in lbl:
+            valid = "zq"        # not among the probe strings: re-assigning the current name of a contained Extension /
+            #                     Qualifier collides with itself in the namespace (KeyError; uniqueness is property C01)
+        for s in boundary_strings(kind, rng, 0)[:: (3 if chk.tier == "quick" else 1)] + ([] if "(contained)" in lbl else [valid]):
             ok = string_spec_ok(kind, s)
             chk.seen(("attr", lbl, s), nontrivial=True)
             chk.count("attr:" + lbl)
@@ -593,10 +620,11 @@ def attr_verdict(e, ok, read, s, before, lbl):
 # =====================================================================================================
 
 def regenerate(chk):
-    from py2coq import refchecks, intranges, strconstraints, beechecks
+    from py2coq import refchecks, intranges, strconstraints, beechecks, semsetter
     from py2coq.c02engine import Abort
     infos = {}
-    for name, mod in (("refs", refchecks), ("ints", intranges), ("strs", strconstraints), ("bee", beechecks)):
+    for name, mod in (("refs", refchecks), ("ints", intranges), ("strs", strconstraints), ("bee", beechecks),
+                      ("sem", semsetter)):
         try:
             infos[name] = mod.regenerate(common.REPO, common.GEN)
         except Abort as e:
@@ -651,7 +679,7 @@ def run(chk):
             common.run_mismatch_shards = common_run
     chk.trusted = [
         "Coq 8.16.1 kernel (coqc; vm_compute for Examples and the tie evaluation; no native_compute)",
-        "translators tools/py2coq/{c02engine,refchecks,intranges,strconstraints,beechecks}.py (fail-closed; validated on every run "
+        "translators tools/py2coq/{c02engine,refchecks,intranges,strconstraints,beechecks,semsetter}.py (fail-closed; validated on every run "
         "by evaluating the generated definitions and the Python originals on the same inputs)",
         "Python's re.fullmatch decides membership in the regular language of the (escape-free) patterns translated",
         "str.isalpha restricted to ASCII = [A-Za-z] (premise of C02_id_short, checked on all 128 code points)",
